@@ -1,8 +1,14 @@
 (* Props/C01.v — property C01 "Every accepted IDL yields Go code that compiles" (partial).
-   Proved here: the collision-renaming logic every generated identifier table goes through
+   Proved here: (1) the collision-renaming logic every generated identifier table goes through
    (pkg/namespace) never gives one name to two ids, never takes a reserved name away, for
-   every sequence of operations and every rename function.  Not proved (observed by compiling
-   the generated code in the correspondence harness): that template text is well-typed Go. *)
+   every sequence of operations and every rename function; (2) for the sequence of table
+   operations that the Go backend performs for a resolved file (model Gen/Scope.v of
+   generator/golang/scope_internal.go), for every file, feature set and naming style: equal
+   names in one table mean equal ids, struct-like type names are pairwise distinct, names with
+   distinct ids are distinct (package level, struct members, method parameters), no parameter
+   is a Go keyword, a reserve failure is the error result and the only one.
+   Not proved (observed by compiling the generated code in the correspondence harness): that
+   template text is well-typed Go, and identifiers templates compose without a name table. *)
 From Coq Require Import List Arith Bool.
 From Verif Require Import Base.Bytes Gen.Namespace Gen.NamespaceFacts.
 Import ListNotations.
